@@ -385,6 +385,18 @@ func c09ChooseSiblings(ctx *core.Ctx, r *core.Report) {
 				rangesMap = true
 			}
 		})
+		// the active case is the one that has data, whatever its values
+		empt := ""
+		for _, c := range core.CallSites(f) {
+			if cal := core.StaticCallee(c); cal != nil {
+				switch core.FnName(cal) {
+				case "nodeutil.reflectIsEmpty", "reflect.Value.IsZero":
+					empt = ctx.Pos(c.Pos())
+				}
+			}
+		}
+		r.Ob("choose-by-presence", core.FnName(f), ctx.Pos(f.Pos()), empt == "",
+			"Choose decides on emptiness ("+empt+"), not presence: a case whose leaves hold false, 0 or \"\" is not seen as the active one, so writing another case does not clear it")
 		r.Ob("choose-deterministic", core.FnName(f), ctx.Pos(f.Pos()), !rangesMap,
 			"Choose ranges over the Cases() map and returns the first case with data: for data holding nodes of two cases the answer changes from run to run")
 	}
